@@ -309,6 +309,80 @@ def union_part(tier):
     return cases, viol
 
 
+REF_UNION_FAMILIES = [["Event", "EventBatch", "EventEvent"], ["Item", "ItemItem", "ItemList"], ["A", "AB", "AA"], ["Pet", "PetPet", "Pet2"],
+                      ["UserCreated", "UserDeleted", "User"], ["X", "Y", "XY", "YX"]]
+
+
+def ref_union_part():
+    """named unions over $ref members whose names share affixes: after affix stripping the variant names must stay
+    distinct (a duplicate variant does not compile)"""
+    d = vlib.scratch("C09r")
+    cases = [(fam, helpers) for fam in REF_UNION_FAMILIES for helpers in (True, False)]
+
+    def one(i):
+        fam, helpers = cases[i]
+        schemas = {nm: {"type": "object", "required": [f"k{k}"], "properties": {f"k{k}": {"type": "string"}}} for k, nm in enumerate(fam)}
+        schemas["Payload"] = {"oneOf": [{"$ref": f"#/components/schemas/{nm}"} for nm in fam]}
+        spec = {"openapi": "3.1.0", "info": {"title": "t", "version": "1"}, "paths": {}, "components": {"schemas": schemas}}
+        sp = os.path.join(d, f"s{i}.json")
+        json.dump(spec, open(sp, "w"))
+        out = os.path.join(d, f"o{i}.rs")
+        rc, txt = vlib.oas(["generate", "types", "-i", sp, "-o", out, "-q", "--all-schemas"] + ([] if helpers else ["--no-helpers"]))
+        return rc, txt, out
+    outs = vlib.pmap(one, range(len(cases)))
+    dumps = vlib.vtool_lines("dump", [o[2] for o in outs])
+    viol = []
+    for (fam, helpers), (rc, txt, _), dump in zip(cases, outs, dumps):
+        tag = f"union over $refs {fam} ({'helpers' if helpers else 'no helpers'})"
+        if rc != 0 or "error" in dump:
+            viol.append(((fam, helpers), f"{tag}: generator failed / output does not parse: rc={rc} {txt.strip()[-200:]} {dump.get('error', '')[:200]}"))
+            continue
+        en = [x for x in dump["items"] if x["kind"] == "enum" and x["name"] == "Payload"]
+        vs = [v["name"] for v in en[0]["variants"]] if en else []
+        if len(vs) != len(fam) or len(set(vs)) != len(vs):
+            viol.append(((fam, helpers), f"{tag}: variants {vs} are not {len(fam)} distinct names"))
+    return cases, viol
+
+
+def opname_part():
+    """component schemas whose Rust names coincide with the names an operation's request / response types would take"""
+    d = vlib.scratch("C09o")
+    viol, cases = [], []
+    for (sreq, sresp, opid) in (("fetch_thing_request", "fetch_thing_response", "fetchThing"), ("FetchThingRequest", "FetchThingResponse", "fetchThing"),
+                                ("get-item-request", "get-item-response", "get_item"), ("listOrdersRequest", "listOrdersResponse", "list-orders")):
+        R_ = lambda t: {"$ref": f"#/components/schemas/{t}"}
+        spec = {"openapi": "3.1.0", "info": {"title": "t", "version": "1"},
+                "paths": {"/t": {"post": {"operationId": opid, "requestBody": {"required": True, "content": {"application/json": {"schema": R_(sreq)}}},
+                                          "responses": {"200": {"description": "ok", "content": {"application/json": {"schema": R_(sresp)}}}, "404": {"description": "nf"}}}}},
+                "components": {"schemas": {sreq: {"type": "object", "required": ["rid"], "properties": {"rid": {"type": "string"}}},
+                                           sresp: {"type": "object", "required": ["value"], "properties": {"value": {"type": "integer"}}}}}}
+        cases.append((sreq, sresp, opid))
+        sp = os.path.join(d, f"{opid}_{sreq[:3]}.json")
+        json.dump(spec, open(sp, "w"))
+        out = os.path.join(d, f"{opid}_{sreq[:3]}.rs")
+        rc, txt = vlib.oas(["generate", "types", "-i", sp, "-o", out, "-q"])
+        dump = vlib.vtool_lines("dump", [out])[0] if rc == 0 else {"error": "no output"}
+        tag = f"schemas {sreq}/{sresp} + operation {opid}"
+        if rc != 0 or "error" in dump:
+            viol.append(((sreq, sresp, opid), f"{tag}: generator failed rc={rc} {txt.strip()[-200:]}"))
+            continue
+        items = [x for x in dump["items"] if x["kind"] in ("struct", "enum", "type")]
+        names = [x["name"] for x in items]
+        if len(set(names)) != len(names):
+            viol.append(((sreq, sresp, opid), f"{tag}: duplicate module items {sorted(n for n in names if names.count(n) > 1)}"))
+        body_struct = [x for x in items if x["kind"] == "struct" and any(f["name"] == "rid" for f in x["fields"])]
+        resp_struct = [x for x in items if x["kind"] == "struct" and any(f["name"] == "value" for f in x["fields"])]
+        req_struct = [x for x in items if x["kind"] == "struct" and any(f["name"] == "body" for f in x["fields"])]
+        resp_enum = [x for x in items if x["kind"] == "enum" and any(v["name"] == "NotFound" for v in x["variants"])]
+        if not (body_struct and resp_struct and req_struct and resp_enum):
+            viol.append(((sreq, sresp, opid), f"{tag}: expected the two schema structs, the operation's request struct and its response enum; found items {names}"))
+            continue
+        payload = [f["ty"] for v in resp_enum[0]["variants"] for f in v["fields"]]
+        if resp_enum[0]["name"] in " ".join(payload) or req_struct[0]["name"] == body_struct[0]["name"]:
+            viol.append(((sreq, sresp, opid), f"{tag}: the operation's types took the schemas' names: response enum {resp_enum[0]['name']} carries {payload}, request struct {req_struct[0]['name']}"))
+    return cases, viol
+
+
 def _is_f1(props):
     """the recorded class: two properties share a Rust name b and a third property's Rust name is b_<i>"""
     import subprocess
@@ -345,8 +419,10 @@ def main(tier, seed, replay=None):
     known_hits |= kh2
     mcases, viol3 = module_part(tier, seed)
     ucases, viol4 = union_part(tier)
-    viol2 = viol2 + viol3 + viol4
-    cases = cases + mcases + ucases
+    rcases, viol5 = ref_union_part()
+    ocases, viol6 = opname_part()
+    viol2 = viol2 + viol3 + viol4 + viol5 + viol6
+    cases = cases + mcases + ucases + rcases + ocases
     res.counts.update({"evaluations": len(names) * 3 + len(cases), "distinct_nontrivial": len(names),
                        "traces_validated_against_impl": len(names) if exe else 0, "scope_cases": len(cases),
                        "rule": f"every string over the 14-symbol alphabet up to length {3 if tier=='quick' else 5}, every keyword in 4 spellings, a hand list and random Unicode strings through the real sanitisers (compiled by #[path]) and the extracted model; legality of the implementation's results decided by the model's legal_ident; plus collision classes (pairs/triples) placed in struct-field and enum-variant scopes through the CLI; module-level inline type names; unions of inline branches whose titles collide three or four ways or are keywords, with and without helper constructors"})
